@@ -20,4 +20,14 @@ TEXT = {
         "note": "Trusted: Lean kernel; recording connection re-implements nats.go subject validation; ownership entries are assumed to be valid patterns of "
                 "literal tokens, * and a trailing > (ownedOk). Reconnect-triggered resets are not exercised (no real NATS in quick).",
     },
+    "C06": {
+        "text": "Lean 4 theorems (Props/C06.lean) about the trie model of mux.go for EVERY tree reachable by registrations and every name: lookup is sound, "
+                "complete and returns a most specific stored pattern (literal > placeholder > full wildcard, token by token); registration stores exactly the "
+                "pattern, frames every other pattern, rejects duplicates and invalid patterns, accepts every documented-valid pattern with distinct tags "
+                "(incl. the anonymous *); lookup never panics on any input string; params and group indexes are exact. Mount/Route/path-prefix arrangements are "
+                "covered by the executable model + an independent executable spec (registration list + 'best match'), both compared with the real Mux on "
+                "~10^5 (quick) / 2.6*10^6 (thorough) generated operations across up to 3 nested muxes.",
+        "note": "Trusted: Lean kernel; hand transcription of mux.go/group.go; harness. The Lean theorems are for a single mux (no Mount); the mounted arrangements "
+                "are tied by model=spec=impl agreement only. Listener-only patterns (rejected by Serve) and cyclic mounts are outside the specification.",
+    },
 }
